@@ -14,8 +14,9 @@ ROUTES = ["c.new", "e.new", "d.new", "c.from_e", "c.from_eref", "d.from_e", "d.f
 def run(chk, tier):
     chk.proof_obligations("BlockCiphers.Thm.C12")
     quick = tier == "quick"
-    cfgs = ["default", "cpuoff", "forcesoft", "kuzsoft", "kuzcompact"] if quick else \
-        ["default", "cpuoff", "forcesoft", "compact", "softcompact", "kuzsoft", "kuzcompact", "release", "cpuoff-release"]
+    cfgs = ["default", "cpuoff", "forcesoft", "kuzsoft", "kuzcompact", "zeroize", "zeroize-cpuoff", "o0", "cpuoff-o0"] if quick else \
+        ["default", "cpuoff", "forcesoft", "compact", "softcompact", "kuzsoft", "kuzcompact", "release", "cpuoff-release",
+         "zeroize", "zeroize-cpuoff", "zeroize-release", "zeroize-soft", "zeroize-kuzsoft", "zeroize-kuzcompact", "allfeat", "o0", "cpuoff-o0", "zeroize-o0", "zeroize-cpuoff-o0"]
     from ..common import build_harness, CONFIGS
     ok, log = build_harness(CONFIGS["default"])
     if not ok:
